@@ -1,1 +1,1408 @@
-fn main() {}
+//! Engine `relay` — part (c) of C16: compact-block reconstruction.
+//!
+//! A real node N (chain service, tx-pool service, SyncShared + Relayer built as `ckb run` does)
+//! follows a chain produced by a builder node B (TreeGen: committed transactions, uncles,
+//! proposals, extension). For every new block X built on N's tip — before X itself is given to
+//! N — compact blocks of X with arbitrary prefilled index sets are run through the real
+//! `CompactBlockVerifier` (hook H7) and, when accepted, through the real
+//! `Relayer::reconstruct_block`, with random subsets of X's transactions in N's pool / supplied
+//! as `received_transactions` / missing, random subsets of uncles supplied, and tampered
+//! short-id lists (simulated collisions), uncle lists, proposals and extension.
+//!
+//! Oracle (no code shared with reconstruct_block): `Block(b)` must be exactly the block the
+//! compact block's header commits to (header bytes identical; transactions root, proposals
+//! hash and extra hash recomputed from b's body with ckb_hash::blake2b_256 and an own CBMT
+//! equal the header's fields; byte-identical to X when nothing was tampered); `Missing` must be
+//! exactly the model's missing index sets; an untampered compact block with everything
+//! available must reconstruct; `Collided` / `Error` are acceptable verdicts for tampered input.
+//! A message-level episode drives `Relayer::received` (CompactBlock, then BlockTransactions)
+//! through a recording protocol context.
+
+mod netctx;
+
+use ckb_app_config::TxPoolConfig;
+use ckb_chain::{ChainServiceScope, RemoteBlock};
+use ckb_hash::blake2b_256;
+use ckb_network::{CKBProtocolHandler, NetworkController, PeerIndex, SupportProtocols};
+use ckb_shared::block_status::BlockStatus;
+use ckb_shared::{Shared, SharedBuilder};
+use ckb_sync::{ReconstructionResult, Relayer, StatusCode, SyncShared, verif_compact_block_verify};
+use ckb_types::core::{BlockView, FeeRate, TransactionView, UncleBlockView};
+use ckb_types::packed::{self, Byte32, ProposalShortId};
+use ckb_types::prelude::*;
+use ckb_verification::BlockVerifier;
+use ckb_verification_traits::Verifier;
+use serde_json::json;
+use std::collections::{BTreeSet, HashMap, HashSet};
+use std::panic::{AssertUnwindSafe, catch_unwind};
+use std::sync::Arc;
+use std::time::{Duration, Instant};
+use vbase::{Args, Report, Rng};
+use vnode::consensus::{self, ChainParams, EpochMode, GenesisInfo};
+use vnode::hooks;
+use vnode::model::{H, h, hx};
+use vnode::treegen::{Mutation, TreeCfg, TreeGen};
+
+// ---------------------------------------------------------------------------------------
+// node under test with a relayer (vnode's Node::boot consumes the pack, so the node is put
+// together here, in the same order as node.rs / `ckb run`)
+
+struct RNode {
+    shared: Shared,
+    scope: ChainServiceScope,
+    relayer: Relayer,
+    _network: NetworkController,
+    _net_dir: tempfile::TempDir,
+}
+
+fn boot(gi: &GenesisInfo) -> RNode {
+    let _ = vnode::node::scratch_dir();
+    let tx_pool = TxPoolConfig {
+        min_fee_rate: FeeRate::from_u64(0),
+        min_rbf_rate: FeeRate::from_u64(1),
+        ..Default::default()
+    };
+    let (shared, mut pack) = SharedBuilder::with_temp_db()
+        .consensus(gi.consensus.clone())
+        .tx_pool_config(tx_pool)
+        .build()
+        .expect("SharedBuilder::build");
+    let (nc, dir) = vnode::node::dummy_network(&shared);
+    pack.take_tx_pool_builder().start(nc.clone());
+    let scope = ChainServiceScope::new(pack.take_chain_services_builder());
+    let t0 = Instant::now();
+    while scope.chain_controller().is_verifying_unverified_blocks_on_startup() {
+        assert!(t0.elapsed() < Duration::from_secs(120), "start-up scan did not finish");
+        std::thread::sleep(Duration::from_micros(200));
+    }
+    let sync_shared = Arc::new(SyncShared::new(
+        shared.clone(),
+        Default::default(),
+        pack.take_relay_tx_receiver(),
+    ));
+    let relayer = Relayer::new(scope.chain_controller().clone(), sync_shared);
+    RNode { shared, scope, relayer, _network: nc, _net_dir: dir }
+}
+
+// ---------------------------------------------------------------------------------------
+// independent recomputation of the header commitments
+
+fn merge(l: &H, r: &H) -> H {
+    let mut buf = [0u8; 64];
+    buf[..32].copy_from_slice(l);
+    buf[32..].copy_from_slice(r);
+    blake2b_256(buf)
+}
+
+/// Complete binary merkle tree root (RFC 0006): leaves occupy the last n slots of an array of
+/// 2n-1 nodes, node i = merge(node 2i+1, node 2i+2); empty -> zero.
+fn cbmt_root(leaves: &[H]) -> H {
+    let n = leaves.len();
+    if n == 0 {
+        return [0u8; 32];
+    }
+    let mut nodes = vec![[0u8; 32]; 2 * n - 1];
+    nodes[n - 1..].copy_from_slice(leaves);
+    for i in (0..n - 1).rev() {
+        nodes[i] = merge(&nodes[2 * i + 1], &nodes[2 * i + 2]);
+    }
+    nodes[0]
+}
+
+struct Commit {
+    tx_root: H,
+    proposals_hash: H,
+    extra_hash: H,
+}
+
+fn commitments_of_body(b: &packed::Block) -> Commit {
+    let raw: Vec<H> = b.transactions().into_iter().map(|t| blake2b_256(t.raw().as_slice())).collect();
+    let wit: Vec<H> = b.transactions().into_iter().map(|t| blake2b_256(t.as_slice())).collect();
+    let tx_root = cbmt_root(&[cbmt_root(&raw), cbmt_root(&wit)]);
+    let proposals_hash = if b.proposals().is_empty() {
+        [0u8; 32]
+    } else {
+        let mut buf = vec![];
+        for id in b.proposals().into_iter() {
+            buf.extend_from_slice(id.as_slice());
+        }
+        blake2b_256(&buf)
+    };
+    let uncles_hash = if b.uncles().is_empty() {
+        [0u8; 32]
+    } else {
+        let mut buf = vec![];
+        for u in b.uncles().into_iter() {
+            buf.extend_from_slice(&blake2b_256(u.header().as_slice()));
+        }
+        blake2b_256(&buf)
+    };
+    let extra_hash = match b.extension() {
+        None => uncles_hash,
+        Some(ext) => merge(&uncles_hash, &blake2b_256(ext.raw_data())),
+    };
+    Commit { tx_root, proposals_hash, extra_hash }
+}
+
+// ---------------------------------------------------------------------------------------
+// compact block parts
+
+#[derive(Clone)]
+struct Parts {
+    header: packed::Header,
+    short_ids: Vec<ProposalShortId>,
+    prefilled: Vec<(usize, packed::Transaction)>,
+    uncles: Vec<Byte32>,
+    proposals: Vec<ProposalShortId>,
+    extension: Option<packed::Bytes>,
+}
+
+fn parts_of(cb: &packed::CompactBlock) -> Parts {
+    Parts {
+        header: cb.header(),
+        short_ids: cb.short_ids().into_iter().collect(),
+        prefilled: cb
+            .prefilled_transactions()
+            .into_iter()
+            .map(|pt| (Into::<usize>::into(pt.index()), pt.transaction()))
+            .collect(),
+        uncles: cb.uncles().into_iter().collect(),
+        proposals: cb.proposals().into_iter().collect(),
+        extension: cb.extension(),
+    }
+}
+
+fn build_compact(p: &Parts) -> packed::CompactBlock {
+    let prefilled: Vec<packed::IndexTransaction> = p
+        .prefilled
+        .iter()
+        .map(|(i, tx)| packed::IndexTransaction::new_builder().index(*i).transaction(tx.clone()).build())
+        .collect();
+    match &p.extension {
+        Some(ext) => packed::CompactBlockV1::new_builder()
+            .header(p.header.clone())
+            .short_ids(p.short_ids.clone())
+            .prefilled_transactions(prefilled)
+            .uncles(p.uncles.clone())
+            .proposals(p.proposals.clone())
+            .extension(ext.clone())
+            .build()
+            .as_v0(),
+        None => packed::CompactBlock::new_builder()
+            .header(p.header.clone())
+            .short_ids(p.short_ids.clone())
+            .prefilled_transactions(prefilled)
+            .uncles(p.uncles.clone())
+            .proposals(p.proposals.clone())
+            .build(),
+    }
+}
+
+#[derive(Clone, Copy, Debug, PartialEq, Eq)]
+enum Tamper {
+    None,
+    IdsSwap,
+    IdsForeignPool,
+    IdsForeignCommitted,
+    IdsRandom,
+    IdsDuplicate,
+    IdsDrop,
+    IdsAdd,
+    PrefilledNoCellbase,
+    PrefilledOutOfOrder,
+    PrefilledEqualIndex,
+    PrefilledOutOfRange,
+    PrefilledAlsoShortId,
+    PrefilledWrongTx,
+    UnclesSwap,
+    UncleReplaceStored,
+    UncleReplaceOrphan,
+    UncleReplaceUnknown,
+    UncleReplaceInvalid,
+    UncleDrop,
+    UncleAdd,
+    ProposalsAdd,
+    ProposalsDrop,
+    ProposalsReplace,
+    ProposalsSwap,
+    ExtensionFlip,
+    ExtensionDrop,
+    ExtensionAppend,
+}
+
+const TAMPERS: &[Tamper] = &[
+    Tamper::IdsSwap,
+    Tamper::IdsForeignPool,
+    Tamper::IdsForeignCommitted,
+    Tamper::IdsRandom,
+    Tamper::IdsDuplicate,
+    Tamper::IdsDrop,
+    Tamper::IdsAdd,
+    Tamper::PrefilledNoCellbase,
+    Tamper::PrefilledOutOfOrder,
+    Tamper::PrefilledEqualIndex,
+    Tamper::PrefilledOutOfRange,
+    Tamper::PrefilledAlsoShortId,
+    Tamper::PrefilledWrongTx,
+    Tamper::UnclesSwap,
+    Tamper::UncleReplaceStored,
+    Tamper::UncleReplaceOrphan,
+    Tamper::UncleReplaceUnknown,
+    Tamper::UncleReplaceInvalid,
+    Tamper::UncleDrop,
+    Tamper::UncleAdd,
+    Tamper::ProposalsAdd,
+    Tamper::ProposalsDrop,
+    Tamper::ProposalsReplace,
+    Tamper::ProposalsSwap,
+    Tamper::ExtensionFlip,
+    Tamper::ExtensionDrop,
+    Tamper::ExtensionAppend,
+];
+
+#[derive(Clone, Copy, Debug, PartialEq, Eq)]
+enum Known {
+    Stored,
+    Orphan,
+    Invalid,
+}
+
+struct Sess {
+    si: u64,
+    gi: GenesisInfo,
+    tg: TreeGen,
+    n: RNode,
+    rng: Rng,
+    rt: tokio::runtime::Runtime,
+    /// what N knows about blocks, from the harness's own delivery log
+    delivered: HashMap<H, Known>,
+    /// blocks outside the tree model (invalid twins), by hash
+    extra_blocks: HashMap<H, BlockView>,
+    /// transactions committed on N's main chain (N never reorganises in this engine)
+    committed: HashMap<ProposalShortId, TransactionView>,
+    /// every transaction ever handed to N's pool
+    ever_submitted: HashSet<ProposalShortId>,
+    orphans: Vec<H>,
+    invalids: Vec<H>,
+    ops: Vec<String>,
+    params_desc: String,
+    dead: bool,
+}
+
+fn id_hex(id: &ProposalShortId) -> String {
+    vbase::hex(id.as_slice())
+}
+
+fn panic_msg(p: &Box<dyn std::any::Any + Send>) -> String {
+    p.downcast_ref::<&str>()
+        .map(|s| s.to_string())
+        .or_else(|| p.downcast_ref::<String>().cloned())
+        .unwrap_or_else(|| "<non-string panic payload>".into())
+}
+
+impl Sess {
+    fn n_tip(&self) -> H {
+        h(&self.n.shared.snapshot().tip_hash())
+    }
+
+    fn witness(&self, extra: serde_json::Value) -> serde_json::Value {
+        json!({
+            "session": self.si,
+            "params": self.params_desc,
+            "ops_tail": self.ops.iter().rev().take(25).rev().collect::<Vec<_>>(),
+            "case": extra,
+        })
+    }
+
+    fn block_by_hash(&self, x: &H) -> Option<BlockView> {
+        if self.tg.rc.contains(x) {
+            Some((*self.tg.rc.get(x).block).clone())
+        } else {
+            self.extra_blocks.get(x).cloned()
+        }
+    }
+
+    /// Deliver a block whose parent N has, wait for the verdict.
+    fn deliver(&mut self, x: &H, r: &mut Report, expect_tip: bool) -> bool {
+        let block = Arc::clone(&self.tg.rc.get(x).block);
+        let res = self.n.scope.chain_controller().blocking_process_block(Arc::clone(&block));
+        if res.is_err() {
+            r.inconclusive(&format!(
+                "harness: node under test answered {:?} to a block accepted by the builder node",
+                res.map_err(|e| e.to_string())
+            ));
+            self.dead = true;
+            return false;
+        }
+        self.delivered.insert(*x, Known::Stored);
+        if expect_tip {
+            if self.n_tip() != *x {
+                r.inconclusive("harness: node under test did not adopt the next main-chain block");
+                self.dead = true;
+                return false;
+            }
+            for tx in block.transactions().iter().skip(1) {
+                self.committed.insert(tx.proposal_short_id(), tx.clone());
+            }
+        }
+        self.ops.push(format!(
+            "deliver {}#{} txs={} uncles={} ({})",
+            hx(x), block.number(), block.transactions().len() - 1, block.uncles().hashes().len(),
+            if expect_tip { "main" } else { "side" }
+        ));
+        true
+    }
+
+    /// Deliver a block whose parent N does not have, exactly as `SyncShared::accept_remote_block`
+    /// does (status BLOCK_RECEIVED, then the asynchronous chain entry point): it becomes an orphan.
+    fn deliver_orphan(&mut self, x: &H, r: &mut Report) -> bool {
+        let block = Arc::clone(&self.tg.rc.get(x).block);
+        let hash = block.hash();
+        if self.n.shared.block_status_map().get(&hash).is_none() {
+            self.n.shared.insert_block_status(hash.clone(), BlockStatus::BLOCK_RECEIVED);
+        }
+        self.n.scope.chain_controller().asynchronous_process_remote_block(RemoteBlock {
+            block,
+            verify_callback: Box::new(|_| {}),
+        });
+        let t0 = Instant::now();
+        loop {
+            if self.n.scope.chain_controller().get_orphan_block(self.n.shared.store(), &hash).is_some() {
+                break;
+            }
+            if t0.elapsed() > Duration::from_secs(20) {
+                r.inconclusive("watchdog: a block delivered without its parent did not show up in the orphan pool within 20 s");
+                self.dead = true;
+                return false;
+            }
+            std::thread::sleep(Duration::from_micros(200));
+        }
+        self.delivered.insert(*x, Known::Orphan);
+        self.orphans.push(*x);
+        self.ops.push(format!("deliver {}#{} without its parent (orphan)", hx(x), self.tg.rc.get(x).number));
+        r.count("setup.orphan_blocks");
+        true
+    }
+
+    /// Logical quiescence of the pool; returns the pooled transactions by short id.
+    fn pool(&self, r: &mut Report) -> Option<HashMap<ProposalShortId, TransactionView>> {
+        let t0 = Instant::now();
+        loop {
+            let tip = self.n.shared.snapshot().tip_hash();
+            let ctrl = self.n.shared.tx_pool_controller();
+            let info = match ctrl.get_tx_pool_info() {
+                Ok(i) => i,
+                Err(e) => {
+                    r.inconclusive(&format!("harness: tx-pool service error {e}"));
+                    return None;
+                }
+            };
+            if info.tip_hash == tip && info.verify_queue_size == 0 {
+                match ctrl.verif_dump() {
+                    Ok(d) if d.snapshot_tip == tip => {
+                        if info.orphan_size > 0 {
+                            r.count("pool.orphans_present");
+                        }
+                        return Some(d.entries.into_iter().map(|e| (e.id, e.tx)).collect());
+                    }
+                    Ok(_) => {}
+                    Err(e) => {
+                        r.inconclusive(&format!("harness: tx-pool service error {e}"));
+                        return None;
+                    }
+                }
+            }
+            if t0.elapsed() > Duration::from_secs(30) {
+                r.inconclusive("watchdog: pool did not catch up with the chain tip in 30 s");
+                return None;
+            }
+            std::thread::sleep(Duration::from_micros(300));
+        }
+    }
+
+    fn submit(&mut self, tx: &TransactionView, r: &mut Report) {
+        self.ever_submitted.insert(tx.proposal_short_id());
+        match self.n.shared.tx_pool_controller().submit_local_tx(tx.clone()) {
+            Ok(Ok(_)) => r.count("pool.submit_ok"),
+            Ok(Err(_)) => r.count("pool.submit_rejected"),
+            Err(e) => r.inconclusive(&format!("harness: submit_local_tx channel error {e}")),
+        }
+    }
+
+    /// One round: optional side subtrees on the tip (future uncles: stored / unknown / with an
+    /// orphaned child / invalid twin), then the next main block X with reconstruction cases run
+    /// before X is delivered.
+    fn round(&mut self, r: &mut Report, variants: usize) {
+        let p = self.tg.tip();
+        if self.n_tip() != p {
+            r.inconclusive("harness: builder tip and node tip diverged");
+            self.dead = true;
+            return;
+        }
+        let mut stored_later: Vec<H> = vec![];
+        let sides = if self.rng.chance(650, 1000) { 1 + self.rng.usize_below(2) } else { 0 };
+        for _ in 0..sides {
+            let w1 = self.tg.extend(&p);
+            match self.rng.below(10) {
+                0..=3 => {
+                    stored_later.push(w1);
+                    r.count("setup.side_blocks_stored");
+                }
+                4..=6 => {
+                    r.count("setup.side_blocks_withheld");
+                }
+                7..=8 => {
+                    let w2 = self.tg.extend(&w1);
+                    if !self.deliver_orphan(&w2, r) {
+                        return;
+                    }
+                    r.count("setup.side_blocks_withheld");
+                }
+                _ => {
+                    // an invalid twin of the side block, refused by N
+                    let m = if self.rng.bool() { Mutation::BadTxRoot } else { Mutation::DaoField };
+                    if let Some(twin) = self.tg.mutate(&w1, m) {
+                        let res = self.n.scope.chain_controller().blocking_process_block(Arc::new(twin.clone()));
+                        if res.is_err() {
+                            let th = h(&twin.hash());
+                            self.delivered.insert(th, Known::Invalid);
+                            self.invalids.push(th);
+                            self.extra_blocks.insert(th, twin);
+                            r.count("setup.invalid_blocks_refused");
+                            self.ops.push(format!("deliver invalid twin {} ({m:?}) of {}: refused", hx(&th), hx(&w1)));
+                        }
+                    }
+                    stored_later.push(w1);
+                }
+            }
+        }
+        let x = self.tg.extend(&p);
+        let xb = (*self.tg.rc.get(&x).block).clone();
+        if variants > 0 {
+            self.cases(&xb, &p, r, variants);
+        }
+        if self.dead {
+            return;
+        }
+        if !self.deliver(&x, r, true) {
+            return;
+        }
+        for w in stored_later {
+            if !self.deliver(&w, r, false) {
+                return;
+            }
+        }
+        if self.n_tip() != x {
+            r.inconclusive("harness: a side block displaced the main chain of the node under test");
+            self.dead = true;
+        }
+    }
+
+    fn cases(&mut self, x: &BlockView, parent: &H, r: &mut Report, variants: usize) {
+        let txs = x.transactions();
+        let in_block: HashSet<ProposalShortId> = txs.iter().skip(1).map(|t| t.proposal_short_id()).collect();
+        let others: Vec<TransactionView> = self
+            .tg
+            .committable(parent)
+            .into_iter()
+            .filter(|t| !in_block.contains(&t.proposal_short_id()))
+            .collect();
+        r.count("blocks_reconstructed_from");
+        if !x.uncles().hashes().is_empty() {
+            r.count("blocks_with_uncles");
+        }
+        if txs.len() > 1 {
+            r.count("blocks_with_txs");
+        }
+        for phase in 0..2 {
+            if phase == 0 {
+                let p_block = [0u64, 300, 600, 1000][self.rng.usize_below(4)];
+                for tx in txs.iter().skip(1) {
+                    if self.rng.chance(p_block, 1000) {
+                        self.submit(tx, r);
+                    }
+                }
+                for tx in &others {
+                    if self.rng.chance(600, 1000) {
+                        self.submit(tx, r);
+                    }
+                }
+            } else {
+                for tx in txs.iter().skip(1) {
+                    self.submit(tx, r);
+                }
+            }
+            let Some(pool) = self.pool(r) else {
+                self.dead = true;
+                return;
+            };
+            for _ in 0..variants {
+                self.one_case(x, &pool, &others, r);
+                if self.dead {
+                    return;
+                }
+            }
+        }
+    }
+
+    /// Apply one tampering to the parts; None when not applicable to this block.
+    fn tamper(
+        &mut self,
+        kind: Tamper,
+        p: &mut Parts,
+        x: &BlockView,
+        pool: &HashMap<ProposalShortId, TransactionView>,
+    ) -> Option<String> {
+        let rng = &mut self.rng;
+        let used: HashSet<ProposalShortId> = p
+            .short_ids
+            .iter()
+            .cloned()
+            .chain(p.prefilled.iter().map(|(_, t)| t.clone().into_view().proposal_short_id()))
+            .collect();
+        let x_uncles: HashSet<H> = x.uncles().hashes().into_iter().map(|u| h(&u)).collect();
+        match kind {
+            Tamper::None => Some(String::new()),
+            Tamper::IdsSwap => {
+                if p.short_ids.len() < 2 {
+                    return None;
+                }
+                let i = rng.usize_below(p.short_ids.len());
+                let mut j = rng.usize_below(p.short_ids.len());
+                if i == j {
+                    j = (j + 1) % p.short_ids.len();
+                }
+                p.short_ids.swap(i, j);
+                Some(format!("short ids {i} and {j} swapped"))
+            }
+            Tamper::IdsForeignPool | Tamper::IdsForeignCommitted | Tamper::IdsRandom | Tamper::IdsAdd => {
+                let foreign: Option<ProposalShortId> = match kind {
+                    Tamper::IdsRandom => Some(ProposalShortId::from_slice(&rng.bytes(10)).unwrap()),
+                    Tamper::IdsForeignCommitted => {
+                        let mut c: Vec<&ProposalShortId> = self.committed.keys().filter(|k| !used.contains(*k)).collect();
+                        c.sort_by(|a, b| a.as_slice().cmp(b.as_slice()));
+                        if c.is_empty() { None } else { Some(c[rng.usize_below(c.len())].clone()) }
+                    }
+                    _ => {
+                        let mut c: Vec<&ProposalShortId> = pool.keys().filter(|k| !used.contains(*k)).collect();
+                        c.sort_by(|a, b| a.as_slice().cmp(b.as_slice()));
+                        if c.is_empty() { None } else { Some(c[rng.usize_below(c.len())].clone()) }
+                    }
+                };
+                let foreign = foreign?;
+                if kind == Tamper::IdsAdd {
+                    let at = rng.usize_below(p.short_ids.len() + 1);
+                    p.short_ids.insert(at, foreign.clone());
+                    Some(format!("short id {} of another pooled transaction inserted at {at}", id_hex(&foreign)))
+                } else {
+                    if p.short_ids.is_empty() {
+                        return None;
+                    }
+                    let at = rng.usize_below(p.short_ids.len());
+                    let old = std::mem::replace(&mut p.short_ids[at], foreign.clone());
+                    Some(format!("short id {at} {} replaced by {} ({kind:?})", id_hex(&old), id_hex(&foreign)))
+                }
+            }
+            Tamper::IdsDuplicate => {
+                if p.short_ids.is_empty() {
+                    return None;
+                }
+                let i = rng.usize_below(p.short_ids.len());
+                let id = p.short_ids[i].clone();
+                if p.short_ids.len() >= 2 && rng.bool() {
+                    let j = (i + 1 + rng.usize_below(p.short_ids.len() - 1)) % p.short_ids.len();
+                    p.short_ids[j] = id;
+                    Some(format!("short id {i} copied over {j}"))
+                } else {
+                    p.short_ids.push(id);
+                    Some(format!("short id {i} appended again"))
+                }
+            }
+            Tamper::IdsDrop => {
+                if p.short_ids.is_empty() {
+                    return None;
+                }
+                let i = rng.usize_below(p.short_ids.len());
+                p.short_ids.remove(i);
+                Some(format!("short id {i} dropped"))
+            }
+            Tamper::PrefilledNoCellbase => {
+                p.prefilled.remove(0);
+                if rng.bool() {
+                    p.short_ids.insert(0, x.transactions()[0].proposal_short_id());
+                }
+                Some("cellbase not prefilled".into())
+            }
+            Tamper::PrefilledOutOfOrder => {
+                if p.prefilled.len() < 3 {
+                    return None;
+                }
+                let i = 1 + rng.usize_below(p.prefilled.len() - 2);
+                p.prefilled.swap(i, i + 1);
+                Some(format!("prefilled entries {i} and {} swapped", i + 1))
+            }
+            Tamper::PrefilledEqualIndex => {
+                if p.prefilled.len() < 2 {
+                    return None;
+                }
+                let i = 1 + rng.usize_below(p.prefilled.len() - 1);
+                p.prefilled[i].0 = p.prefilled[i - 1].0;
+                Some(format!("prefilled entry {i} given the index of entry {}", i - 1))
+            }
+            Tamper::PrefilledOutOfRange => {
+                let total = p.prefilled.len() + p.short_ids.len();
+                let last = p.prefilled.len() - 1;
+                if last == 0 {
+                    return None;
+                }
+                p.prefilled[last].0 = total + rng.usize_below(3);
+                Some(format!("last prefilled index set to {} (>= {total})", p.prefilled[last].0))
+            }
+            Tamper::PrefilledAlsoShortId => {
+                if p.prefilled.len() < 2 {
+                    return None;
+                }
+                let i = 1 + rng.usize_below(p.prefilled.len() - 1);
+                let id = p.prefilled[i].1.clone().into_view().proposal_short_id();
+                let at = rng.usize_below(p.short_ids.len() + 1);
+                p.short_ids.insert(at, id);
+                Some(format!("short id of prefilled entry {i} also listed at {at}"))
+            }
+            Tamper::PrefilledWrongTx => {
+                if p.prefilled.len() < 2 {
+                    return None;
+                }
+                let mut c: Vec<&ProposalShortId> = pool.keys().filter(|k| !used.contains(*k)).collect();
+                c.sort_by(|a, b| a.as_slice().cmp(b.as_slice()));
+                if c.is_empty() {
+                    return None;
+                }
+                let i = 1 + rng.usize_below(p.prefilled.len() - 1);
+                let t = pool[c[rng.usize_below(c.len())]].clone();
+                p.prefilled[i].1 = t.data();
+                Some(format!("prefilled entry {i} carries another transaction {}", hx(&h(&t.hash()))))
+            }
+            Tamper::UnclesSwap => {
+                if p.uncles.len() < 2 {
+                    return None;
+                }
+                p.uncles.swap(0, 1);
+                Some("uncle hashes 0 and 1 swapped".into())
+            }
+            Tamper::UncleReplaceStored | Tamper::UncleReplaceOrphan | Tamper::UncleReplaceInvalid | Tamper::UncleReplaceUnknown | Tamper::UncleAdd => {
+                let cand: Option<H> = match kind {
+                    Tamper::UncleReplaceUnknown => Some(h(&Byte32::from_slice(&rng.bytes(32)).unwrap())),
+                    Tamper::UncleReplaceOrphan => {
+                        let c: Vec<&H> = self.orphans.iter().filter(|o| !x_uncles.contains(*o)).collect();
+                        if c.is_empty() { None } else { Some(*c[rng.usize_below(c.len())]) }
+                    }
+                    Tamper::UncleReplaceInvalid => {
+                        if self.invalids.is_empty() { None } else { Some(self.invalids[rng.usize_below(self.invalids.len())]) }
+                    }
+                    _ => {
+                        // any block N has stored: main chain or side branch
+                        let mut c: Vec<&H> = self
+                            .delivered
+                            .iter()
+                            .filter(|(k, v)| **v == Known::Stored && !x_uncles.contains(*k) && self.tg.rc.get(k).number > 0)
+                            .map(|(k, _)| k)
+                            .collect();
+                        c.sort();
+                        if c.is_empty() { None } else { Some(*c[rng.usize_below(c.len())]) }
+                    }
+                };
+                let cand = cand?;
+                let ch = Byte32::from_slice(&cand).unwrap();
+                if kind == Tamper::UncleAdd {
+                    let at = rng.usize_below(p.uncles.len() + 1);
+                    p.uncles.insert(at, ch);
+                    Some(format!("hash of stored block {} inserted into the uncle list at {at}", hx(&cand)))
+                } else {
+                    if p.uncles.is_empty() {
+                        return None;
+                    }
+                    let at = rng.usize_below(p.uncles.len());
+                    let old = std::mem::replace(&mut p.uncles[at], ch);
+                    Some(format!("uncle hash {at} {} replaced by {} ({kind:?})", hx(&h(&old)), hx(&cand)))
+                }
+            }
+            Tamper::UncleDrop => {
+                if p.uncles.is_empty() {
+                    return None;
+                }
+                let i = rng.usize_below(p.uncles.len());
+                p.uncles.remove(i);
+                Some(format!("uncle hash {i} dropped"))
+            }
+            Tamper::ProposalsAdd => {
+                let at = rng.usize_below(p.proposals.len() + 1);
+                p.proposals.insert(at, ProposalShortId::from_slice(&rng.bytes(10)).unwrap());
+                Some(format!("a proposal id inserted at {at}"))
+            }
+            Tamper::ProposalsDrop => {
+                if p.proposals.is_empty() {
+                    return None;
+                }
+                let i = rng.usize_below(p.proposals.len());
+                p.proposals.remove(i);
+                Some(format!("proposal id {i} dropped"))
+            }
+            Tamper::ProposalsReplace => {
+                if p.proposals.is_empty() {
+                    return None;
+                }
+                let i = rng.usize_below(p.proposals.len());
+                p.proposals[i] = ProposalShortId::from_slice(&rng.bytes(10)).unwrap();
+                Some(format!("proposal id {i} replaced"))
+            }
+            Tamper::ProposalsSwap => {
+                if p.proposals.len() < 2 || p.proposals[0] == p.proposals[1] {
+                    return None;
+                }
+                p.proposals.swap(0, 1);
+                Some("proposal ids 0 and 1 swapped".into())
+            }
+            Tamper::ExtensionFlip => {
+                let ext = p.extension.clone()?;
+                let mut raw = ext.raw_data().to_vec();
+                if raw.is_empty() {
+                    return None;
+                }
+                let i = rng.usize_below(raw.len());
+                raw[i] ^= 1 << rng.below(8);
+                p.extension = Some(ckb_types::bytes::Bytes::from(raw).into());
+                Some(format!("extension byte {i} flipped"))
+            }
+            Tamper::ExtensionDrop => {
+                p.extension.as_ref()?;
+                p.extension = None;
+                Some("extension removed".into())
+            }
+            Tamper::ExtensionAppend => {
+                let mut raw = p.extension.as_ref().map(|e| e.raw_data().to_vec()).unwrap_or_default();
+                let extra_len = 1 + rng.usize_below(8);
+                raw.extend_from_slice(&rng.bytes(extra_len));
+                p.extension = Some(ckb_types::bytes::Bytes::from(raw).into());
+                Some("bytes appended to the extension".into())
+            }
+        }
+    }
+
+    fn one_case(
+        &mut self,
+        x: &BlockView,
+        pool: &HashMap<ProposalShortId, TransactionView>,
+        others: &[TransactionView],
+        r: &mut Report,
+    ) {
+        let txs = x.transactions();
+        let n = txs.len() - 1;
+        // prefilled index set
+        let density = [0u64, 150, 500, 1000][self.rng.usize_below(4)];
+        let prefilled: HashSet<usize> = (1..=n).filter(|_| self.rng.chance(density, 1000)).collect();
+        let honest = packed::CompactBlock::build_from_block(x, &prefilled);
+        let mut parts = parts_of(&honest);
+        // tampering
+        let mut kind = if self.rng.chance(300, 1000) { Tamper::None } else { *self.rng.pick(TAMPERS) };
+        let how = match self.tamper(kind, &mut parts, x, pool) {
+            Some(s) => s,
+            None => {
+                kind = Tamper::None;
+                parts = parts_of(&honest);
+                String::new()
+            }
+        };
+        let tampered = kind != Tamper::None;
+        let cb = build_compact(&parts);
+        if !tampered && cb.as_slice() != honest.as_slice() {
+            r.inconclusive("harness: compact block re-assembled from its parts differs from the original");
+            self.dead = true;
+            return;
+        }
+        r.count(&format!("tamper.{kind:?}"));
+        // what the peer supplies
+        let p_recv = [0u64, 350, 1000][self.rng.usize_below(3)];
+        let mut received: Vec<TransactionView> = vec![];
+        for (i, tx) in txs.iter().enumerate().skip(1) {
+            if !prefilled.contains(&i) && self.rng.chance(p_recv, 1000) {
+                received.push(tx.clone());
+            }
+        }
+        if self.rng.chance(150, 1000) && !others.is_empty() {
+            // a transaction the compact block does not ask for (ignored unless its id is listed)
+            received.push(others[self.rng.usize_below(others.len())].clone());
+        }
+        if self.rng.chance(200, 1000) {
+            self.rng.shuffle(&mut received);
+        }
+        let mut uncles_index: Vec<u32> = vec![];
+        let mut received_uncles: Vec<UncleBlockView> = vec![];
+        let p_unc = [0u64, 500, 1000][self.rng.usize_below(3)];
+        for (i, uh) in parts.uncles.iter().enumerate() {
+            if self.rng.chance(p_unc, 1000) {
+                if let Some(b) = self.block_by_hash(&h(uh)) {
+                    uncles_index.push(i as u32);
+                    received_uncles.push(b.as_uncle());
+                }
+            }
+        }
+        // the node's own verifier decides whether reconstruction is attempted at all
+        let status = verif_compact_block_verify(&cb);
+        if !status.is_ok() {
+            r.eval();
+            r.count(&format!("verifier.rejected.{:?}", status.code()));
+            r.count("verifier.rejected");
+            return;
+        }
+        r.count("verifier.accepted");
+
+        // ---- model ------------------------------------------------------------------
+        let recv_ids: HashSet<ProposalShortId> = received.iter().map(|t| t.proposal_short_id()).collect();
+        let total = parts.prefilled.len() + parts.short_ids.len();
+        let pre_idx: HashSet<usize> = parts.prefilled.iter().map(|(i, _)| *i).collect();
+        let mut lower: BTreeSet<usize> = BTreeSet::new(); // certainly missing
+        let mut upper: BTreeSet<usize> = BTreeSet::new(); // possibly missing
+        let mut avail_sig = String::new();
+        {
+            let mut ids = parts.short_ids.iter();
+            for pos in 0..total {
+                if pre_idx.contains(&pos) {
+                    avail_sig.push('P');
+                    r.count("split.prefilled");
+                    continue;
+                }
+                let Some(id) = ids.next() else { break };
+                if recv_ids.contains(id) {
+                    avail_sig.push('r');
+                    r.count("split.received");
+                } else if pool.contains_key(id) {
+                    avail_sig.push('p');
+                    r.count("split.pool");
+                } else if self.committed.contains_key(id) {
+                    avail_sig.push('c');
+                    r.count("split.committed_on_chain");
+                } else if self.ever_submitted.contains(id) {
+                    // handed to the pool once but not pooled now (rejected / conflict cache)
+                    avail_sig.push('?');
+                    upper.insert(pos);
+                    r.count("split.uncertain");
+                } else {
+                    avail_sig.push('-');
+                    lower.insert(pos);
+                    upper.insert(pos);
+                    r.count("split.missing");
+                }
+            }
+        }
+        let mut missing_uncles: BTreeSet<usize> = BTreeSet::new();
+        let mut invalid_uncle = false;
+        let mut uncle_sig = String::new();
+        for (i, uh) in parts.uncles.iter().enumerate() {
+            if uncles_index.contains(&(i as u32)) {
+                uncle_sig.push('r');
+                r.count("uncles.supplied");
+                continue;
+            }
+            match self.delivered.get(&h(uh)) {
+                Some(Known::Stored) => {
+                    uncle_sig.push('s');
+                    r.count("uncles.stored");
+                }
+                Some(Known::Orphan) => {
+                    uncle_sig.push('o');
+                    r.count("uncles.orphan");
+                }
+                Some(Known::Invalid) => {
+                    uncle_sig.push('i');
+                    invalid_uncle = true;
+                    r.count("uncles.invalid");
+                }
+                None => {
+                    uncle_sig.push('-');
+                    missing_uncles.insert(i);
+                    r.count("uncles.unknown");
+                }
+            }
+        }
+
+        // ---- the call ---------------------------------------------------------------
+        let active_chain = self.n.relayer.shared().active_chain();
+        let relayer = &self.n.relayer;
+        let rt = &self.rt;
+        let res = catch_unwind(AssertUnwindSafe(|| {
+            rt.block_on(relayer.reconstruct_block(&active_chain, &cb, received.clone(), &uncles_index, &received_uncles))
+        }));
+        r.eval();
+        let case = |extra: serde_json::Value| {
+            json!({
+                "block": format!("{}#{}", vbase::hex(x.hash().as_slice()), x.number()),
+                "block_txs": txs.len(), "block_uncles": x.uncles().hashes().into_iter().map(|u| vbase::hex(u.as_slice())).collect::<Vec<_>>(),
+                "tamper": format!("{kind:?}"), "how": how,
+                "prefilled_indexes": parts.prefilled.iter().map(|(i, _)| *i).collect::<Vec<_>>(),
+                "short_ids": parts.short_ids.iter().map(id_hex).collect::<Vec<_>>(),
+                "availability_by_position (P prefilled, r received, p pool, c committed on chain, ? uncertain, - missing)": avail_sig,
+                "compact_uncles": parts.uncles.iter().map(|u| vbase::hex(u.as_slice())).collect::<Vec<_>>(),
+                "uncles_by_position (r supplied, s stored, o orphan, i invalid, - unknown)": uncle_sig,
+                "uncles_index": uncles_index,
+                "received_transactions": received.iter().map(|t| id_hex(&t.proposal_short_id())).collect::<Vec<_>>(),
+                "compact_block": vbase::hex(cb.as_slice()),
+                "extra": extra,
+            })
+        };
+        let res = match res {
+            Ok(v) => v,
+            Err(p) => {
+                let _ = hooks::take_panics();
+                let msg = panic_msg(&p);
+                r.count("outcome.panic");
+                let group = match kind {
+                    Tamper::None => "honest",
+                    _ => "tampered",
+                };
+                r.violation(
+                    &format!("reconstruct.panicked@{group}:{}", msg.chars().take(50).collect::<String>()),
+                    format!("reconstruct_block panicked on a compact block accepted by CompactBlockVerifier: {msg}"),
+                    self.witness(case(json!({"panic": msg}))),
+                );
+                return;
+            }
+        };
+        let something_missing = !lower.is_empty() || !missing_uncles.is_empty();
+        let outcome = match &res {
+            ReconstructionResult::Block(_) => "block".to_string(),
+            ReconstructionResult::Missing(..) => "missing".to_string(),
+            ReconstructionResult::Collided => "collided".to_string(),
+            ReconstructionResult::Error(s) => format!("error.{:?}", s.code()),
+        };
+        r.count(&format!("outcome.{outcome}"));
+        r.distinct_str(&format!("{kind:?}|{avail_sig}|{uncle_sig}|{outcome}"));
+        match res {
+            ReconstructionResult::Block(b) => {
+                if something_missing {
+                    r.violation(
+                        "reconstruct.block_returned_while_parts_missing",
+                        format!(
+                            "Block returned although transactions at {:?} / uncles at {:?} are available neither locally nor from the peer",
+                            lower, missing_uncles
+                        ),
+                        self.witness(case(json!({"result_block_hash": vbase::hex(b.hash().as_slice())}))),
+                    );
+                    return;
+                }
+                let hdr = &parts.header;
+                let body = commitments_of_body(&b.data());
+                let header_same = b.data().header().as_slice() == hdr.as_slice();
+                let hash_same = h(&b.hash()) == blake2b_256(hdr.as_slice());
+                let tx_ok = body.tx_root == h(&hdr.raw().transactions_root());
+                let prop_ok = body.proposals_hash == h(&hdr.raw().proposals_hash());
+                let extra_ok = body.extra_hash == h(&hdr.raw().extra_hash());
+                if header_same && hash_same && tx_ok && prop_ok && extra_ok {
+                    // the header commits to this body: it must be X itself
+                    if b.data().as_slice() != x.data().as_slice() {
+                        // only possible through a hash collision
+                        r.violation(
+                            "reconstruct.block_committed_by_header_but_different_bytes",
+                            "reconstructed block satisfies every header commitment but its bytes differ from the original block".into(),
+                            self.witness(case(json!({}))),
+                        );
+                    } else {
+                        r.count("block.byte_identical");
+                        if tampered {
+                            r.count("block.identical_despite_tampering");
+                        }
+                    }
+                    return;
+                }
+                // not the block the header commits to
+                let downstream = {
+                    let nonctx = BlockVerifier::new(self.n.shared.consensus()).verify(&b).map_err(|e| e.to_string());
+                    let full = vnode::verify::full_verify_noncommit(&self.n.shared, &b);
+                    json!({
+                        "result_block_hash": vbase::hex(b.hash().as_slice()),
+                        "compact_header_hash": vbase::hex(&blake2b_256(hdr.as_slice())),
+                        "header_identical": header_same,
+                        "tx_root_committed": tx_ok, "proposals_hash_committed": prop_ok, "extra_hash_committed": extra_ok,
+                        "node_non_contextual_BlockVerifier_on_result": format!("{nonctx:?}"),
+                        "node_full_verification_of_result_as_next_block": format!("{full:?}"),
+                    })
+                };
+                let x_uncles: Vec<Byte32> = x.uncles().hashes().into_iter().collect();
+                let b_uncles: Vec<Byte32> = b.uncles().hashes().into_iter().collect();
+                let mut sigs = vec![];
+                if !tx_ok {
+                    sigs.push("reconstruct.block_with_transactions_not_committed_by_header");
+                }
+                if !prop_ok {
+                    sigs.push("reconstruct.block_with_proposals_not_committed_by_header");
+                }
+                if !extra_ok {
+                    if x_uncles != b_uncles {
+                        sigs.push("reconstruct.block_with_uncles_not_committed_by_header");
+                    }
+                    if x.data().extension().map(|e| e.as_slice().to_vec()) != b.data().extension().map(|e| e.as_slice().to_vec()) {
+                        sigs.push("reconstruct.block_with_extension_not_committed_by_header");
+                    }
+                    if sigs.is_empty() {
+                        sigs.push("reconstruct.block_with_extra_hash_not_committed_by_header");
+                    }
+                }
+                if sigs.is_empty() {
+                    sigs.push("reconstruct.block_header_differs_from_compact_header");
+                }
+                for sig in sigs {
+                    r.violation(
+                        sig,
+                        format!(
+                            "reconstruct_block returned Block(b) that is not the block the compact block's header commits to ({how}): b.hash()={} header hash={} tx_root ok={tx_ok} proposals_hash ok={prop_ok} extra_hash ok={extra_ok}",
+                            hx(&h(&b.hash())), hx(&blake2b_256(hdr.as_slice()))
+                        ),
+                        self.witness(case(downstream.clone())),
+                    );
+                }
+            }
+            ReconstructionResult::Missing(mt, mu) => {
+                let mt: BTreeSet<usize> = mt.into_iter().collect();
+                let mu: BTreeSet<usize> = mu.into_iter().collect();
+                if invalid_uncle {
+                    // the code may legitimately stop at the invalid uncle instead; a Missing
+                    // report is still judged below
+                    r.count("missing.with_invalid_uncle_listed");
+                }
+                if !(lower.is_subset(&mt) && mt.is_subset(&upper)) {
+                    r.violation(
+                        "reconstruct.missing_tx_indexes_differ_from_model",
+                        format!("Missing reports transaction indexes {mt:?}; unavailable according to the model: {lower:?} (possibly also {:?})", upper.difference(&lower).collect::<Vec<_>>()),
+                        self.witness(case(json!({}))),
+                    );
+                } else if mu != missing_uncles {
+                    r.violation(
+                        "reconstruct.missing_uncle_indexes_differ_from_model",
+                        format!("Missing reports uncle indexes {mu:?}; unknown to the node and not supplied according to the model: {missing_uncles:?}"),
+                        self.witness(case(json!({}))),
+                    );
+                } else if mt.is_empty() && mu.is_empty() {
+                    r.violation(
+                        "reconstruct.missing_reported_with_empty_sets",
+                        "Missing returned with two empty index sets".into(),
+                        self.witness(case(json!({}))),
+                    );
+                } else {
+                    r.count("missing.exact");
+                }
+            }
+            ReconstructionResult::Collided | ReconstructionResult::Error(_) => {
+                if outcome == format!("error.{:?}", StatusCode::TxPool) {
+                    r.inconclusive("harness: tx-pool service did not answer fetch_txs");
+                    return;
+                }
+                if !tampered {
+                    r.violation(
+                        "reconstruct.honest_compact_block_not_reconstructed",
+                        format!("an untampered compact block was answered {outcome} (model: missing txs {lower:?}..{upper:?}, missing uncles {missing_uncles:?})"),
+                        self.witness(case(json!({}))),
+                    );
+                }
+            }
+        }
+    }
+
+    /// Message-level episode through `Relayer::received` with a recording protocol context:
+    /// CompactBlock with an uncle N does not know (all transactions prefilled) -> the node asks
+    /// for the uncle -> BlockTransactions answering with the uncle (control) or with FEWER
+    /// uncles than requested.
+    fn message_episode(&mut self, r: &mut Report, fewer: bool) {
+        // find a next block with an uncle unknown to N
+        let mut found: Option<(BlockView, Vec<u32>)> = None;
+        for _ in 0..10 {
+            if self.dead {
+                return;
+            }
+            let p = self.tg.tip();
+            let _w = self.tg.extend(&p); // withheld sibling: a future uncle N never sees
+            let x1 = self.tg.extend(&p);
+            if !self.deliver(&x1, r, true) {
+                return;
+            }
+            let x = self.tg.extend(&x1);
+            let xb = (*self.tg.rc.get(&x).block).clone();
+            let unknown: Vec<u32> = xb
+                .uncles()
+                .hashes()
+                .into_iter()
+                .enumerate()
+                .filter(|(_, u)| !self.delivered.contains_key(&h(u)))
+                .map(|(i, _)| i as u32)
+                .collect();
+            if !unknown.is_empty() {
+                found = Some((xb, unknown));
+                break;
+            }
+            if !self.deliver(&x, r, true) {
+                return;
+            }
+        }
+        let Some((xb, unknown)) = found else {
+            r.count("msg.no_block_with_unknown_uncle");
+            return;
+        };
+        r.count("msg.episodes");
+        // the relay protocol is inert during initial block download: bring the clock to the tip
+        vnode::node::set_time(xb.timestamp() + 1_000);
+        let all: HashSet<usize> = (1..xb.transactions().len()).collect();
+        let cb = packed::CompactBlock::build_from_block(&xb, &all);
+        let nc = Arc::new(netctx::RecordingContext::new(SupportProtocols::RelayV3));
+        let peer: PeerIndex = 7usize.into();
+        let msg1 = packed::RelayMessage::new_builder().set(cb).build().as_bytes();
+        let rt = &self.rt;
+        let relayer = &mut self.n.relayer;
+        let nc1: Arc<dyn ckb_network::CKBProtocolContext + Sync> = nc.clone();
+        let r1 = catch_unwind(AssertUnwindSafe(|| rt.block_on(relayer.received(nc1, peer, msg1))));
+        if let Err(p) = r1 {
+            let _ = hooks::take_panics();
+            let msg = panic_msg(&p);
+            r.violation(
+                &format!("relay.received_panicked@compact_block:{}", msg.chars().take(50).collect::<String>()),
+                format!("Relayer::received panicked on a well-formed CompactBlock message: {msg}"),
+                self.witness(json!({"block": vbase::hex(xb.hash().as_slice())})),
+            );
+            vnode::node::set_time(ChainParams::default().genesis_timestamp + 3_000_000_000);
+            return;
+        }
+        // the node must now be asking for exactly the unknown uncles
+        let asked = {
+            let t0 = Instant::now();
+            loop {
+                let a = nc.get_block_transactions_requests();
+                if !a.is_empty() || t0.elapsed() > Duration::from_secs(5) {
+                    break a;
+                }
+                std::thread::sleep(Duration::from_millis(1));
+            }
+        };
+        if asked.is_empty() {
+            r.count("msg.no_request_observed");
+            vnode::node::set_time(ChainParams::default().genesis_timestamp + 3_000_000_000);
+            return;
+        }
+        r.eval();
+        let (ask_txs, ask_uncles) = asked[0].clone();
+        if !ask_txs.is_empty() || ask_uncles != unknown {
+            r.violation(
+                "relay.get_block_transactions_differs_from_model",
+                format!("node asked for transactions {ask_txs:?} and uncles {ask_uncles:?}; model: no transactions, uncles {unknown:?}"),
+                self.witness(json!({"block": vbase::hex(xb.hash().as_slice())})),
+            );
+        }
+        let uncles: Vec<packed::UncleBlock> = if fewer {
+            ask_uncles.iter().skip(1).map(|i| xb.uncles().get(*i as usize).unwrap().data()).collect()
+        } else {
+            ask_uncles.iter().map(|i| xb.uncles().get(*i as usize).unwrap().data()).collect()
+        };
+        let bt = packed::BlockTransactions::new_builder()
+            .block_hash(xb.hash())
+            .uncles(uncles)
+            .build();
+        let msg2 = packed::RelayMessage::new_builder().set(bt).build().as_bytes();
+        let nc2: Arc<dyn ckb_network::CKBProtocolContext + Sync> = nc.clone();
+        let relayer = &mut self.n.relayer;
+        let r2 = catch_unwind(AssertUnwindSafe(|| rt.block_on(relayer.received(nc2, peer, msg2))));
+        r.eval();
+        r.distinct_str(&format!("msg|{fewer}|{}|{}", xb.uncles().hashes().len(), unknown.len()));
+        match r2 {
+            Err(p) => {
+                let _ = hooks::take_panics();
+                let msg = panic_msg(&p);
+                r.count("msg.outcome.panic");
+                r.violation(
+                    if fewer {
+                        "relay.received_panicked@block_transactions_with_fewer_uncles_than_requested"
+                    } else {
+                        "relay.received_panicked@block_transactions"
+                    },
+                    format!(
+                        "Relayer::received panicked on a BlockTransactions message answering GetBlockTransactions(uncle_indexes={ask_uncles:?}) with {} uncle(s): {msg}",
+                        if fewer { ask_uncles.len() - 1 } else { ask_uncles.len() }
+                    ),
+                    self.witness(json!({
+                        "block": vbase::hex(xb.hash().as_slice()), "requested_uncle_indexes": ask_uncles,
+                        "uncles_sent": if fewer { ask_uncles.len() - 1 } else { ask_uncles.len() }, "panic": msg,
+                    })),
+                );
+            }
+            Ok(()) => {
+                if fewer {
+                    r.count("msg.outcome.fewer_uncles_handled");
+                    if self.n_tip() == h(&xb.hash()) {
+                        r.violation(
+                            "relay.block_accepted_without_requested_uncles",
+                            "block became the tip although the peer did not supply the requested uncles".into(),
+                            self.witness(json!({"block": vbase::hex(xb.hash().as_slice())})),
+                        );
+                    }
+                } else {
+                    // control: the complete answer must lead to the block being accepted
+                    let t0 = Instant::now();
+                    while self.n_tip() != h(&xb.hash()) && t0.elapsed() < Duration::from_secs(20) {
+                        std::thread::sleep(Duration::from_millis(1));
+                    }
+                    if self.n_tip() == h(&xb.hash()) {
+                        r.count("msg.outcome.block_accepted_through_messages");
+                        self.delivered.insert(h(&xb.hash()), Known::Stored);
+                    } else {
+                        r.count("msg.outcome.block_not_accepted_in_20s");
+                    }
+                }
+            }
+        }
+        vnode::node::set_time(ChainParams::default().genesis_timestamp + 3_000_000_000);
+        // the builder's and the node's tips may differ now; the session ends here
+        self.dead = true;
+    }
+}
+
+fn run_session(si: u64, rng: &mut Rng, r: &mut Report, deadline: Instant, rounds: u64, variants: usize) {
+    let mut params = ChainParams::default();
+    match si % 3 {
+        0 => params.window = (2, 10),
+        1 => params.window = (1, 3),
+        _ => params.window = (2, 4),
+    }
+    // long epochs: uncles must be of the block's epoch
+    params.epoch = EpochMode::Permanent { genesis_len: 60, epoch_len: 60 };
+    params.max_uncles_num = Some(2 + (si % 3) as usize);
+    params.issued_cells = 40;
+    let gi = consensus::build(&params);
+    let tcfg = TreeCfg {
+        n_blocks: 0,
+        invalid: 0,
+        fork_pm: 0,
+        max_new_txs: 4,
+        chain_pm: 400,
+        conflict_pm: 80,
+        uncle_pm: 850,
+        junk_proposals: 2,
+        ts_step_max: 9_000,
+        ..Default::default()
+    };
+    let tg = TreeGen::new(&gi, tcfg, rng.next_u64());
+    let n = boot(&gi);
+    let rt = tokio::runtime::Builder::new_current_thread().enable_all().build().unwrap();
+    let genesis = tg.rc.genesis;
+    let mut s = Sess {
+        si,
+        gi,
+        tg,
+        n,
+        rng: rng.fork(5),
+        rt,
+        delivered: HashMap::from([(genesis, Known::Stored)]),
+        extra_blocks: HashMap::new(),
+        committed: HashMap::new(),
+        ever_submitted: HashSet::new(),
+        orphans: vec![],
+        invalids: vec![],
+        ops: vec![],
+        params_desc: format!("window={:?} max_uncles={:?}", params.window, params.max_uncles_num),
+        dead: false,
+    };
+    r.count("sessions");
+    // warm-up so that proposal windows are filled and uncle candidates exist
+    for _ in 0..4 {
+        if s.dead {
+            return;
+        }
+        s.round(r, 0);
+    }
+    for _ in 0..rounds {
+        if s.dead || Instant::now() > deadline {
+            break;
+        }
+        s.round(r, variants);
+    }
+    if !s.dead {
+        s.message_episode(r, si % 2 == 0);
+    }
+    for (k, v) in s.tg.stats.iter() {
+        r.count_n(&format!("treegen.{k}"), *v);
+    }
+}
+
+fn main() {
+    let args = Args::parse();
+    let _ = vnode::node::scratch_dir();
+    vnode::node::set_time(ChainParams::default().genesis_timestamp + 3_000_000_000);
+    hooks::install_panic_monitor();
+    let mut r = Report::new(
+        "C16",
+        "exploration",
+        &args,
+        "block reconstruction: for valid blocks (committed txs, uncles, proposals, extension) built on a real node's tip, compact blocks with arbitrary prefilled index sets and tampered short-id lists (simulated collisions) / uncle lists / proposals / extension pass the node's CompactBlockVerifier and Relayer::reconstruct_block with random splits of the transactions over pool / peer-supplied / missing and of the uncles over stored / orphan / invalid / unknown / supplied; Block(b) must be exactly the block the header commits to (independent recomputation of all three commitments, byte identity when untampered), Missing must equal the model's index sets; distinct = (tamper kind, availability pattern, uncle pattern, outcome)",
+    );
+    let mut rng = Rng::new(args.seed ^ 0x2E1A7);
+    let budget = args.get_u64("budget_s", args.tier.pick(40, 480));
+    let sessions = args.get_u64("sessions", args.tier.pick(24, 4000));
+    let rounds = args.get_u64("rounds", args.tier.pick(14, 30));
+    let variants = args.get_u64("variants", args.tier.pick(10, 24)) as usize;
+    let deadline = Instant::now() + Duration::from_secs(budget);
+    for si in 0..sessions {
+        if Instant::now() > deadline {
+            r.note("stopped_by_budget_after_sessions", json!(si));
+            break;
+        }
+        let mut srng = rng.fork(si);
+        run_session(si, &mut srng, &mut r, deadline, rounds, variants);
+        for p in hooks::take_panics() {
+            let file = p.location.rsplit('/').next().unwrap_or("").split(':').next().unwrap_or("").to_string();
+            r.violation(
+                &format!("node_thread_panicked@{}:{}:{}", p.thread, file, p.message.chars().take(60).collect::<String>()),
+                format!("thread '{}' panicked at {}: {}", p.thread, p.location, p.message),
+                json!({"session": si}),
+            );
+        }
+    }
+    let q = args.tier == vbase::Tier::Quick;
+    r.require("outcome.block", if q { 200 } else { 2000 });
+    r.require("block.byte_identical", if q { 100 } else { 1000 });
+    r.require("outcome.missing", if q { 100 } else { 1000 });
+    r.require("missing.exact", if q { 100 } else { 1000 });
+    r.require("outcome.collided", if q { 5 } else { 50 });
+    let errors: u64 = r.counters.iter().filter(|(k, _)| k.starts_with("outcome.error.")).map(|(_, v)| *v).sum();
+    r.count_n("outcome.error", errors);
+    r.require("outcome.error", if q { 5 } else { 50 });
+    r.require("verifier.rejected", if q { 20 } else { 200 });
+    r.require("split.pool", if q { 100 } else { 1000 });
+    r.require("split.received", if q { 100 } else { 1000 });
+    r.require("split.missing", if q { 100 } else { 1000 });
+    r.require("split.prefilled", if q { 100 } else { 1000 });
+    r.require("uncles.stored", if q { 20 } else { 200 });
+    r.require("uncles.unknown", if q { 20 } else { 200 });
+    r.require("uncles.supplied", if q { 20 } else { 200 });
+    r.require("uncles.orphan", if q { 1 } else { 10 });
+    r.require("blocks_with_uncles", if q { 10 } else { 100 });
+    r.require("blocks_with_txs", if q { 10 } else { 100 });
+    r.assume("real short-id collisions cannot be mined; they are simulated by replacing listed ids with ids of other pooled / committed transactions");
+    r.assume("uncles_index / received_uncles passed to reconstruct_block satisfy the precondition BlockUnclesVerifier is meant to establish (same length, hashes match the listed ones); the message-level episode exercises the real verifiers");
+    r.assume("what the node knows (pool contents via hook H5 dump, stored / orphan / invalid blocks via the harness's delivery log) is the model's availability; ckb-types is used to read fields");
+    let dir = std::env::var("VERIF_OUT_DIR")
+        .map(std::path::PathBuf::from)
+        .unwrap_or_else(|_| vbase::verif_root().join("evidence"));
+    let path = args
+        .get_str("out")
+        .map(std::path::PathBuf::from)
+        .unwrap_or_else(|| dir.join("C16.part-relay.json"));
+    let code = r.finish(Some(&path));
+    let known = vbase::KnownFindings::load();
+    for v in &r.violations {
+        let tag = if known.is_known("C16", &v.signature) { "KNOWN-FINDING(shard):" } else { "VIOLATION(shard)" };
+        println!("{tag} property=C16 signature={} occurrences={}\n  detail: {}", v.signature, r.counter(&format!("violation::{}", v.signature)), v.detail.chars().take(500).collect::<String>());
+    }
+    for i in &r.inconclusive {
+        println!("INCONCLUSIVE(shard) property=C16 reason={i}");
+    }
+    println!(
+        "[C16/relay] {} seed={} evaluations={} distinct={} block={} missing={} collided={} error={} rejected_by_verifier={} exit={} shard={}",
+        args.tier.as_str(), args.seed, r.evaluations, r.distinct_count(), r.counter("outcome.block"), r.counter("outcome.missing"),
+        r.counter("outcome.collided"), r.counter("outcome.error"), r.counter("verifier.rejected"), code, path.display()
+    );
+    vnode::node::exit(code)
+}
